@@ -90,6 +90,9 @@ func c05Catalogue() []c05Val {
 		{"float64 2^63", float64(math.MaxInt64)}, {"float32 2^63", float32(math.MaxInt64)}, {"float64 -2^63", float64(math.MinInt64)},
 		{"float64 below 2^63", math.Nextafter(float64(math.MaxInt64), 0)}, {"float64 below -2^63", math.Nextafter(float64(math.MinInt64), math.Inf(-1))},
 		{"[]float64 2^63", []float64{float64(math.MaxInt64), 1}}, {"float64 -2^31", float64(math.MinInt32)}, {"float64 -2^31-1", float64(math.MinInt32) - 1}, {"float64 2^31-1", float64(math.MaxInt32)},
+		// the platform-sized unsigned kind at and beyond the largest Int64 (new entries go at the END: the cross product places
+		// a value by its index)
+		{"uint 2^63", uint(1) << 63}, {"uint max", uint(math.MaxUint64)}, {"uint 2^63-1", uint(math.MaxInt64)}, {"uintptr 9", uintptr(9)},
 	}
 }
 
@@ -222,6 +225,9 @@ func runC05(c *run.Ctx) {
 							default:
 								val = model.VList{cv.v, nil, model.VList{cv.v}} // the value as an INNER list (right for a typed slice of T) next to a proper inner list
 							}
+						}
+						if _, isB := val.([]byte); isB && ft.Nullable().List {
+							continue // a []byte where a list is declared: a byte string or a list of small integers - the statement leaves that convention open
 						}
 						if _, innerIsL := ref.AsList(cv.v); bk == "any" && w == "[[T]]" && ((place == 2 && !innerIsL) || place == 1) {
 							continue // the same for a non-list standing where an inner list is declared
